@@ -14,9 +14,10 @@ from .engine import (PathEnd, Unsupported, PyRaise, ReturnSig, BreakSig, Continu
 from .interp import Frame, is_exc_subclass
 from .calls import Calls
 from .dyn import Dyn
+from .heapmaps import HeapMaps
 
 
-class Verifier(Dyn):
+class Verifier(HeapMaps):
     def __init__(self, reg, sources, fid, opts=None):
         super().__init__(reg, sources, fid, opts)
         self.fi = sources.func(fid)
@@ -660,6 +661,11 @@ class Verifier(Dyn):
             self.obligations, self.ob_order, self.pending, self.paths = {}, [], [], 0
             self.outcomes = {"return": 0, "raise": 0, "cut": 0, "infeasible": 0}
             self.cover_hits = {}
+        if getattr(self, "uninterpreted_sort_key", False):
+            # a sort whose key the engine cannot interpret: failures may be artefacts of the abstraction -> need a native reproduction
+            for o in rep["obligations"]:
+                if o["result"] == "failed":
+                    o["needs_native_confirmation"] = True
         if getattr(self, "drift", False):
             rep["drift"] = {"reason": "loop structure differs from the contract's loop table: invariants were re-assigned as candidates and filtered",
                             "dropped_candidates": sorted("%d: %s" % (o, c_) for o, c_ in self.dropped_invariants if c_)}
